@@ -115,7 +115,8 @@ pub fn single_op<S: Src>(s: &mut S) {
     let out0 = latch & ddr;
     let out1 = nl & nd;
     let ok_outcome = r.is_ok();
-    let mut ok_readback = rb == exp_rb && cpu.bus.io_registrs1[ddr_idx(p)] == nd;
+    // DR read-back, the DDR register and the recorded external level of the port
+    let mut ok_readback = rb == exp_rb && cpu.bus.io_registrs1[ddr_idx(p)] == nd && cpu.bus.io_port_in[p as usize - 1] == np;
     let n = unsafe { MSG_N };
     let last = if n >= 1 && n <= MSG_MAX { unsafe { MSG[n - 1] } } else { (0, 0, 0) };
     // last announced value == current output whenever something was announced; a change must be announced
